@@ -260,7 +260,7 @@ def parser_table(ctx, p):
         if bb not in p.call_at:
             return None
         c = p.call_at[bb]
-        if c.path not in ("std::cmp::PartialEq::eq", "std::cmp::PartialEq::ne") or c.self_ty != "str":
+        if c.path not in ("std::cmp::PartialEq::eq", "std::cmp::PartialEq::ne") or c.self_ty not in ("str", "&str", "&&str"):
             return None
         if p.origins_of_operand(c.args[0]) != elem:
             return None
@@ -738,10 +738,37 @@ def _each_definition_sorted(ctx, g, arg, fld):
     """The argument is a variable every definition of which is either the rule's own list chosen
     under the true edge of a sortedness test of that list, or a vector `sort()` was called on."""
     vo = g.vars_of_operand(arg)
-    if not vo or not all(v[0][0] == "var" and len(v) == 1 for v in vo):
+    if not vo:
         return False
-    for v in vo:
-        defs = [d for d in g.defs.get(v[0][1], ()) if not d[3]["proj"]]
+    if all(v[0][0] == "var" and len(v) == 1 for v in vo):
+        merged = [v[0][1] for v in vo]
+    else:
+        # an unnamed temporary that holds one of several values (the `Cow` an inlined helper
+        # returns): follow the argument back to the local with more than one definition
+        op = arg
+        merged = None
+        for _ in range(12):
+            if op["k"] not in ("copy", "move") or any(e["k"] != "deref" for e in op["place"]["proj"]):
+                return False
+            ds = [d for d in g.defs.get(op["place"]["local"], ()) if not d[3]["proj"]]
+            if len(ds) >= 2:
+                merged = [op["place"]["local"]]
+                break
+            if len(ds) != 1:
+                return False
+            kind, bb, idx, place, payload = ds[0]
+            if kind == "call" and payload.name in ("deref", "as_ref", "borrow", "deref_mut") and payload.args:
+                op = payload.args[0]
+            elif kind == "assign" and payload["k"] == "use":
+                op = payload["op"]
+            elif kind == "assign" and payload["k"] == "ref":
+                op = {"k": "copy", "place": payload["place"]}
+            else:
+                return False
+        if merged is None:
+            return False
+    for loc in merged:
+        defs = [d for d in g.defs.get(loc, ()) if not d[3]["proj"]]
         if not defs:
             return False
         for (kind, bb, idx, place, payload) in defs:
